@@ -10,7 +10,11 @@ import PycsepVerif.Model.NumberTestPub
   c07_pub   base scales n       -> "d1 d2 total"  (numberTestPub on GF.init base scaled by the history `scales`, a catalog of
                                    n rows; evaluated through delta12S = delta12 by `stable_eq`, anchor = min(n, ⌊total⌋))
   c07_pubn  base scales n var   -> "d1 d2 total"  (nbdNumberTestPub, the same way)
-  c07_shift n                   -> "a b epsnum/epsden epsbits" (shiftF n; the rational epsF; the Float epsCode) -/
+  c07_shift n                   -> "a b epsnum/epsden epsbits" (shiftF n; the rational epsF; the Float epsCode)
+  c07_puba  base factors n      -> "d1 d2 total"  (numberTestPubA: array-valued scale factor, broadcast by the caller)
+  c07_puban base factors n var  -> "d1 d2 total"  (nbdNumberTestPubA)
+  c07_cf    apply k ncat cats nobs -> "k:n k:n"   (catalogNTestCF after k earlier passes; an event is 1 = kept by the
+                                   configured filters, 0 = dropped; cats `;`-separated, a lone "-" = ncat empty catalogs) -/
 namespace Drive.C07
 open Proto NumberTest
 
@@ -47,6 +51,28 @@ def handle : List String → Option String
           let mu := f.eventCount
           let a := if mu < 0.0 then 0 else min n (Float.floor mu).toUInt64.toNat
           s!"{show2 (nbdDelta12S mu a n v (epsCode : Float))} {showFloat mu}"
+      | _, _, _, _ => "bad-op")
+  | ["c07_puba", base, fs, n] => some (match parseList? parseFloat? base, parseList? parseFloat? fs, n.toNat? with
+      | some base, some fs, some n =>
+          let f : GFA Float := ⟨base, fs⟩
+          let mu := f.eventCount
+          let a := if mu < 0.0 then 0 else min n (Float.floor mu).toUInt64.toNat
+          s!"{show2 (delta12S mu a n (epsCode : Float))} {showFloat mu}"
+      | _, _, _ => "bad-op")
+  | ["c07_puban", base, fs, n, v] => some (match parseList? parseFloat? base, parseList? parseFloat? fs, n.toNat?,
+        parseFloat? v with
+      | some base, some fs, some n, some v =>
+          let f : GFA Float := ⟨base, fs⟩
+          let mu := f.eventCount
+          let a := if mu < 0.0 then 0 else min n (Float.floor mu).toUInt64.toNat
+          s!"{show2 (nbdDelta12S mu a n v (epsCode : Float))} {showFloat mu}"
+      | _, _, _, _ => "bad-op")
+  | ["c07_cf", ap, k, ncat, cats, nobs] => some (match k.toNat?, ncat.toNat?, parseList2? String.toNat? cats, nobs.toNat? with
+      | some k, some ncat, some cats, some nobs =>
+          let cats := if cats.isEmpty then List.replicate ncat [] else cats
+          let f : CF Nat := CF.passes (fun e => e == 1) k ⟨cats, ap == "1"⟩
+          let q := (catalogNTestCF (fun e => e == 1) f (List.replicate nobs 1)).1
+          s!"{showOpt showPair q.1} {showOpt showPair q.2}"
       | _, _, _, _ => "bad-op")
   | ["c07_shift", n] => some (match n.toNat? with
       | some n => let p := shiftF n; s!"{p.1} {p.2} {showRat epsF} {showFloat (epsCode : Float)}"
